@@ -1,6 +1,7 @@
 package main
 
 import (
+	"sync"
 	"time"
 	"context"
 	"fmt"
@@ -400,6 +401,89 @@ func c11Grouped(o *common.Out, id string, mode client.SelectMode, hist []snap) {
 	o.ImplOnly(id, abstract, len(hist) > 1)
 }
 
+// a real selector behind a gate: UpdateServer can be stalled (the watch loop then stands inside it, holding the
+// client's lock) while the registry goes on publishing
+type stallSel struct {
+	inner   client.Selector
+	mu      sync.Mutex
+	gate    chan struct{}
+	stalled chan struct{}
+}
+
+func (g *stallSel) Select(ctx context.Context, p, m string, a interface{}) string {
+	return g.inner.Select(ctx, p, m, a)
+}
+func (g *stallSel) UpdateServer(servers map[string]string) {
+	g.mu.Lock()
+	gate := g.gate
+	g.mu.Unlock()
+	if gate != nil {
+		select {
+		case g.stalled <- struct{}{}:
+		default:
+		}
+		<-gate
+	}
+	g.inner.UpdateServer(servers)
+}
+
+// c11Burst: n snapshots published while the watch loop is stalled applying the first of them (more than its channel
+// holds when n > 11); once it runs again and the registry is quiet, selections come from the LAST published set -
+// none when that set is empty.  Oracle only.  case: burst|<mode>|<n>|<lastEmpty>
+func c11Burst(o *common.Out, id string, mode client.SelectMode, n int, lastEmpty bool) {
+	abstract := fmt.Sprintf("burst|%d|%d|%v", int(mode), n, lastEmpty)
+	o.Begin(id, abstract)
+	o.Count("burst-while-the-watch-loop-is-stalled")
+	first := snap{"vsrv@a": "", "vsrv@b": ""}
+	d, _ := client.NewMultipleServersDiscovery(first.pairs())
+	opt := client.DefaultOption
+	xc := client.NewXClient("Svc", client.Failfast, client.SelectByUser, d, opt)
+	defer xc.Close()
+	gs := &stallSel{inner: client.VerifNewSelector(mode, first), stalled: make(chan struct{}, 1)}
+	xc.SetSelector(gs)
+	gs.mu.Lock()
+	gs.gate = make(chan struct{})
+	gs.mu.Unlock()
+	var last snap
+	for k := 1; k <= n; k++ {
+		last = snap{fmt.Sprintf("vsrv@s%d", k%3): "", fmt.Sprintf("vsrv@t%d", k): ""}
+		if k == n && lastEmpty {
+			last = snap{}
+		}
+		d.Update(last.pairs())
+		if k == 1 {
+			select {
+			case <-gs.stalled:
+			case <-time.After(2 * time.Second):
+				o.Fail(id, "rig", "the watch loop never reached the selector", abstract)
+				return
+			}
+		}
+	}
+	gs.mu.Lock()
+	close(gs.gate)
+	gs.gate = nil
+	gs.mu.Unlock()
+	if !waitServers(xc, mapKeys(last), last) {
+		o.Fail(id, "stale-set", fmt.Sprintf("%d updates were published while the watch loop was busy; afterwards the client holds %v, the last published set is %v",
+			n, mapKeys(client.VerifXClientServers(xc)), mapKeys(last)), abstract)
+	} else {
+		time.Sleep(300 * time.Microsecond)
+		for k := 0; k < 6; k++ {
+			got := client.VerifXClientSelect(xc, "Svc", "M", fmt.Sprintf("k%d", k))
+			if _, ok := last[got]; got != "" && !ok {
+				o.Fail(id, "stale-or-ineligible", fmt.Sprintf("after a burst of %d updates: selected %s, which is not in the last published set %v", n, got, mapKeys(last)), abstract)
+				break
+			}
+			if got == "" && len(last) > 0 {
+				o.Fail(id, "empty-from-nonempty", fmt.Sprintf("after a burst of %d updates: nothing selected although the last published set is %v", n, mapKeys(last)), abstract)
+				break
+			}
+		}
+	}
+	o.ImplOnly(id, abstract, true)
+}
+
 func genServers(r *common.Rand, kind string) [][2]string {
 	n := r.Intn(9)
 	if r.Chance(12) {
@@ -481,6 +565,13 @@ func runC11(r *common.Rand, tier string, o *common.Out, replay string) {
 		c11Long(o, "long-wrr", client.WeightedRoundRobin)
 		c11Long(o, "long-rr", client.RoundRobin)
 	}
+	if strings.HasPrefix(replay, "burst|") {
+		p := strings.Split(replay, "|")
+		m, _ := strconv.Atoi(p[1])
+		n, _ := strconv.Atoi(p[2])
+		c11Burst(o, "replay", client.SelectMode(m), n, p[3] == "true")
+		return
+	}
 	if strings.HasPrefix(replay, "grp|") {
 		p := strings.SplitN(replay, "|", 3)
 		m, _ := strconv.Atoi(p[1])
@@ -508,7 +599,10 @@ func runC11(r *common.Rand, tier string, o *common.Out, replay string) {
 			{{A: "group=g&weight=2", B: "group=g&weight=3", Z: "group=h"}, {A: "group=g&weight=2", Z: "group=h"}, {A: "group=g&weight=2", B: "group=g"}},
 		}
 		k := 0
-		for _, mode := range []client.SelectMode{client.RandomSelect, client.RoundRobin, client.WeightedRoundRobin, client.ConsistentHash} {
+		for mi, mode := range []client.SelectMode{client.RandomSelect, client.RoundRobin, client.WeightedRoundRobin, client.ConsistentHash} {
+			for bi, n := range []int{3, 11, 12, 13, 16, 25} {
+				c11Burst(o, fmt.Sprintf("burst%d-%d", mi, bi), mode, n, (mi+bi)%2 == 1)
+			}
 			for _, h := range hists {
 				k++
 				c11Grouped(o, fmt.Sprintf("grp%d", k), mode, h)
